@@ -1,7 +1,7 @@
 """C01 - core programs produce the prescribed output (DESIGN.md section 4, C01.R1-R3)."""
 import re
 
-from .. import mir, optables as ot
+from .. import emit, mir, optables as ot
 from ..core import CheckError
 from . import common, c15
 
@@ -408,6 +408,43 @@ def r9_truth_is_not_zero(ctx, rule="C01.R9"):
     ctx.require(rule, 4)
 
 
+def r11_operands_are_evaluated_unconditionally(ctx, rule="C01.R11"):
+    """`ends ... with the specific run-time error at the first statement that fails`: BASIC has no
+    short-circuit evaluation - `a = 0 OR 20 / a < 5` raises Division by zero.  The emitter of expressions
+    (the generator function that maps the binary operators to their instructions) and the private helpers of
+    its file that only it calls emit straight-line code: no label, no jump, no conditional jump, so every
+    operand of every operator is evaluated whenever the expression is."""
+    prog = ctx.prog
+    ems = []
+    for f in emit.generator_fns(prog):
+        sws = [s2 for s2 in mir.enum_switches(prog, f.body) if s2.adt.endswith("::Operator") and len(s2.arms) >= 10]
+        if sws:
+            ems.append(f)
+    if not ems:
+        raise CheckError("%s: the expression emitter (the generator function with an arm per operator) was not found" % rule)
+    callers = prog.callers()
+    for f in sorted(ems, key=lambda x: x.id):
+        group = [f]
+        for c in prog.call_edges(f):
+            g = prog.fns.get(c)
+            if g is not None and g.file == f.file and g.id != f.id and emit.is_generator_fn(g) and \
+                    set(callers.get(g.id, ())) <= {f.id, g.id}:
+                group.append(g)
+        bad = []
+        n_ev = 0
+        for g in group:
+            for e in emit.events(prog, g).values():
+                n_ev += 1
+                if e.kind in ("label", "jump", "jump_if_false"):
+                    bad.append("%s(%s) in %s:%s" % (e.kind, e.name, g.name, e.line))
+        ctx.decide(not bad, rule, "%s:%s:straight-line" % (rule, f.name), f.loc,
+                   "%d emission events in %d functions, none of them a label or a jump" % (n_ev, len(group)),
+                   "the emitter of expressions emits control flow (%s): an operand is skipped when another one decides the "
+                   "result, so the run-time error it would raise (`D%% = 0 : IF D%% = 0 OR 20 / D%% < 5` - Division by zero) "
+                   "never happens" % ", ".join(bad[:4]))
+    ctx.require(rule, 1)
+
+
 def run(ctx):
     common.install(ctx)
     r1_dispatch(ctx)
@@ -427,3 +464,4 @@ def run(ctx):
     # an operation whose result is representable does not end the program with Overflow because an
     # intermediate value is not (a - b computed as a + (-b) fails for b = -32768)
     c06.r10_integer_arithmetic_is_direct(ctx, "C01.R10")
+    r11_operands_are_evaluated_unconditionally(ctx)
